@@ -90,7 +90,8 @@ class NewtonRaphsonGeometry(StandardGeometry, ABC):
             if np.max(np.abs(dz)) < self.tol:
                 break
         position = np.column_stack((rays.x, rays.y, rays.z))
-        return np.linalg.norm(intersections - position, axis=1)
+        # signed distance along the ray (the intersection may lie behind it)
+        return np.sum((intersections - position) * ray_directions, axis=1)
 
     def _intersection_sphere(self, rays):
         """
